@@ -374,4 +374,663 @@ Proof.
     + intros repl c inc b rho s. rewrite exec_for_S. grows_go.
 Qed.
 
+(** the state a computation ends in, when it ends with one *)
+Definition final_state {A} (r : res A) : option state :=
+  match r with Ok _ s' | Err _ _ s' | Crash s' => Some s' | _ => None end.
+
+Lemma Grows_final {A} s (r : res A) s' : Grows s r -> final_state r = Some s' -> grows s s'.
+Proof. destruct r; simpl; intros G H; inversion H; subst; exact G. Qed.
+
+Lemma run_stmts_Grows f repl : forall p s, Grows s (run_stmts f repl p s).
+Proof.
+  destruct (grows_all f) as (_ & _ & _ & Hex & _).
+  induction p as [|st p IH]; intros s; simpl.
+  - apply grows_refl.
+  - apply Grows_bind; [apply Hex|]. intros sig s1. destruct sig; simpl; try apply grows_refl. apply IH.
+Qed.
+
+(** Whatever a computation does and however it ends (normally, with a runtime
+    error, or with the printing crash), the output log of its final state is the
+    initial one with events added in front (newest first), and the unread input
+    is a suffix of the initial unread input. *)
+Theorem out_grows : forall f,
+  (forall e rho s s', final_state (eval f e rho s) = Some s' -> grows s s') /\
+  (forall es rho s s', final_state (eval_list f es rho s) = Some s' -> grows s s') /\
+  (forall ps rho s s', final_state (eval_props f ps rho s) = Some s' -> grows s s') /\
+  (forall repl st rho s s', final_state (exec f repl st rho s) = Some s' -> grows s s') /\
+  (forall d rho s s', final_state (exec_var f d rho s) = Some s' -> grows s s') /\
+  (forall ds rho s s', final_state (exec_vars f ds rho s) = Some s' -> grows s s') /\
+  (forall repl ss rho s s', final_state (exec_list f repl ss rho s) = Some s' -> grows s s') /\
+  (forall repl c b rho s s', final_state (exec_while f repl c b rho s) = Some s' -> grows s s') /\
+  (forall repl c inc b rho s s', final_state (exec_for f repl c inc b rho s) = Some s' -> grows s s') /\
+  (forall repl p s s', final_state (run_stmts f repl p s) = Some s' -> grows s s').
+Proof.
+  intros f. destruct (grows_all f) as (H1 & H2 & H3 & H4 & H5 & H6 & H7 & H8 & H9).
+  do 9 (split; [intros; eapply Grows_final; [|eassumption]; auto|]).
+  intros repl p s s' H; eapply Grows_final; [|exact H]. apply run_stmts_Grows.
+Qed.
+
+Corollary out_grows_eval f e rho s v s' :
+  eval f e rho s = Ok v s' ->
+  (exists d, out s' = d ++ out s) /\ (exists k, inp s = k ++ inp s').
+Proof. intros H. destruct (out_grows f) as (G & _). apply (G e rho). rewrite H. reflexivity. Qed.
+
+Corollary out_grows_exec f repl st rho s sig s' :
+  exec f repl st rho s = Ok sig s' ->
+  (exists d, out s' = d ++ out s) /\ (exists k, inp s = k ++ inp s').
+Proof. intros H. destruct (out_grows f) as (_ & _ & _ & G & _). apply (G repl st rho). rewrite H. reflexivity. Qed.
+
+Corollary out_grows_run_ok f repl p s s' :
+  run_stmts f repl p s = Ok tt s' ->
+  (exists d, out s' = d ++ out s) /\ (exists k, inp s = k ++ inp s').
+Proof.
+  intros H. destruct (out_grows f) as (_ & _ & _ & _ & _ & _ & _ & _ & _ & G).
+  apply (G repl p). rewrite H. reflexivity.
+Qed.
+
+Corollary out_grows_run_err f repl p s e l s' :
+  run_stmts f repl p s = Err e l s' ->
+  (exists d, out s' = d ++ out s) /\ (exists k, inp s = k ++ inp s').
+Proof.
+  intros H. destruct (out_grows f) as (_ & _ & _ & _ & _ & _ & _ & _ & _ & G).
+  apply (G repl p). rewrite H. reflexivity.
+Qed.
+
+Corollary out_grows_run_crash f repl p s s' :
+  run_stmts f repl p s = Crash s' ->
+  (exists d, out s' = d ++ out s) /\ (exists k, inp s = k ++ inp s').
+Proof.
+  intros H. destruct (out_grows f) as (_ & _ & _ & _ & _ & _ & _ & _ & _ & G).
+  apply (G repl p). rewrite H. reflexivity.
+Qed.
+
+(* ------------------------------------------------------------------ *)
+(** * A3. Error absorption *)
+
+(** Once a program has failed, nothing after it matters: appending statements
+    changes neither the diagnostic nor the final state (so no later statement
+    prints and no built-in is invoked). *)
+Theorem run_suffix_irrelevant f repl : forall p s e l s',
+  run_stmts f repl p s = Err e l s' -> forall q, run_stmts f repl (p ++ q) s = Err e l s'.
+Proof.
+  induction p as [|st p IH]; intros s e l s' H q; simpl in H |- *.
+  - discriminate H.
+  - bde H as sig s1 E.
+    + rewrite H. reflexivity.
+    + rewrite E. simpl. destruct sig; try exact H. apply IH; exact H.
+Qed.
+
+Theorem run_suffix_irrelevant_crash f repl : forall p s s',
+  run_stmts f repl p s = Crash s' -> forall q, run_stmts f repl (p ++ q) s = Crash s'.
+Proof.
+  induction p as [|st p IH]; intros s s' H q; simpl in H |- *.
+  - discriminate H.
+  - bdc H as sig s1 E.
+    + rewrite H. reflexivity.
+    + rewrite E. simpl. destruct sig; try exact H. apply IH; exact H.
+Qed.
+
+(** a program that ran to its end hands its state to whatever follows *)
+Theorem run_stmts_app_ok f repl : forall p s s1 q,
+  run_stmts f repl p s = Ok tt s1 -> run_stmts f repl (p ++ q) s = run_stmts f repl q s1.
+Proof.
+  induction p as [|st p IH]; intros s s1 q H; simpl in H |- *.
+  - inversion H; reflexivity.
+  - bdo H as sig s0 E. rewrite E. simpl. destruct sig; try discriminate H. apply IH; exact H.
+Qed.
+
+(** the same inside blocks and function bodies; the same fuel suffices *)
+Theorem exec_list_app_err repl : forall f ss1 rho s e l s',
+  exec_list f repl ss1 rho s = Err e l s' ->
+  forall ss2, exec_list f repl (ss1 ++ ss2) rho s = Err e l s'.
+Proof.
+  induction f as [|f IH]; intros ss1 rho s e l s' H ss2; [rewrite exec_list_0 in H; discriminate H|].
+  rewrite exec_list_S in H. destruct ss1 as [|st ss1]; [discriminate H|].
+  simpl app. rewrite exec_list_S.
+  bde H as sig s1 E.
+  - rewrite H. reflexivity.
+  - rewrite E. simpl. destruct sig; try exact H. apply IH; exact H.
+Qed.
+
+Theorem exec_list_app_crash repl : forall f ss1 rho s s',
+  exec_list f repl ss1 rho s = Crash s' ->
+  forall ss2, exec_list f repl (ss1 ++ ss2) rho s = Crash s'.
+Proof.
+  induction f as [|f IH]; intros ss1 rho s s' H ss2; [rewrite exec_list_0 in H; discriminate H|].
+  rewrite exec_list_S in H. destruct ss1 as [|st ss1]; [discriminate H|].
+  simpl app. rewrite exec_list_S.
+  bdc H as sig s1 E.
+  - rewrite H. reflexivity.
+  - rewrite E. simpl. destruct sig; try exact H. apply IH; exact H.
+Qed.
+
+(* ------------------------------------------------------------------ *)
+(** * A5. Signals are contained *)
+
+(** the only signals a loop can hand on: none, or a return *)
+Definition loop_sig (sig : signal) : Prop := sig = SigNone \/ exists l v, sig = SigReturn l v.
+
+(** A while loop never lets a break or continue escape. *)
+Theorem while_signal repl c b rho : forall f s sig s',
+  exec_while f repl c b rho s = Ok sig s' -> loop_sig sig.
+Proof.
+  induction f as [|f IH]; intros s sig s' H; [rewrite exec_while_0 in H; discriminate H|].
+  rewrite exec_while_S in H. bdo H as cv s1 E1.
+  destruct (truthy cv).
+  - bdo H as sg s2 E2. destruct sg as [|bl|cl|rl rv].
+    + eapply IH; exact H.
+    + inversion H; left; reflexivity.
+    + eapply IH; exact H.
+    + inversion H; right; eauto.
+  - inversion H; left; reflexivity.
+Qed.
+
+Theorem for_signal repl c inc b rho : forall f s sig s',
+  exec_for f repl c inc b rho s = Ok sig s' -> loop_sig sig.
+Proof.
+  induction f as [|f IH]; intros s sig s' H; [rewrite exec_for_0 in H; discriminate H|].
+  rewrite exec_for_S in H. bdo H as cv s1 E1.
+  destruct (truthy cv).
+  - bdo H as sg s2 E2. destruct sg as [|bl|cl|rl rv].
+    + bdo H as iv s3 E3. eapply IH; exact H.
+    + inversion H; left; reflexivity.
+    + bdo H as iv s3 E3. eapply IH; exact H.
+    + inversion H; right; eauto.
+  - inversion H; left; reflexivity.
+Qed.
+
+Theorem exec_while_stmt_signal f repl c b rho s sig s' :
+  exec f repl (SWhile c b) rho s = Ok sig s' -> loop_sig sig.
+Proof.
+  destruct f as [|f]; intros H; [rewrite exec_0 in H; discriminate H|].
+  rewrite exec_S in H. eapply while_signal; exact H.
+Qed.
+
+Lemma exec_var_signal f d rho s sig s' : exec_var f d rho s = Ok sig s' -> sig = SigNone.
+Proof.
+  destruct f as [|f]; intros H; [rewrite exec_var_0 in H; discriminate H|].
+  rewrite exec_var_S in H. destruct d as [[x init] line]. bdo H as v s1 E.
+  destruct (env_get_here rho x s1) as [[w|]|]; try discriminate H.
+  destruct (env_define rho x v s1); inversion H; reflexivity.
+Qed.
+
+Lemma exec_vars_signal : forall f ds rho s sig s', exec_vars f ds rho s = Ok sig s' -> sig = SigNone.
+Proof.
+  induction f as [|f IH]; intros ds rho s sig s' H; [rewrite exec_vars_0 in H; discriminate H|].
+  rewrite exec_vars_S in H. destruct ds as [|d ds].
+  - inversion H; reflexivity.
+  - bdo H as sg s1 E. eapply IH; exact H.
+Qed.
+
+Lemma exec_expr_signal f repl e rho s sig s' : exec f repl (SExpr e) rho s = Ok sig s' -> sig = SigNone.
+Proof.
+  destruct f as [|f]; intros H; [rewrite exec_0 in H; discriminate H|].
+  rewrite exec_S in H. bdo H as v s1 E. destruct repl.
+  - destruct (text_of s1 v); inversion H; reflexivity.
+  - inversion H; reflexivity.
+Qed.
+
+(** the initialisers the parser builds for a [ফর] statement: none, a declaration, an expression statement *)
+Definition init_simple (i : option stmt) : Prop :=
+  match i with
+  | None | Some (SVar _) | Some (SVarList _) | Some (SExpr _) => True
+  | _ => False
+  end.
+
+(** For the [SFor] statement the claim needs the initialiser to be of the kinds the
+    parser produces: [exec] hands on whatever signal the initialiser yields
+    (see [for_init_leak] below). *)
+Theorem exec_for_stmt_signal f repl init c inc b rho s sig s' :
+  init_simple init ->
+  exec f repl (SFor init c inc b) rho s = Ok sig s' -> loop_sig sig.
+Proof.
+  intros Hi. destruct f as [|f]; intros H; [rewrite exec_0 in H; discriminate H|].
+  rewrite exec_S in H. destruct (alloc_env (Some rho) s) as [rho' s0].
+  bdo H as sg s2 E.
+  assert (Hsg : sg = SigNone).
+  { destruct init as [i|]; [|inversion E; reflexivity].
+    destruct i; simpl in Hi; try contradiction.
+    - eapply exec_expr_signal; exact E.
+    - destruct f as [|f]; [rewrite exec_0 in E; discriminate E|]. rewrite exec_S in E.
+      eapply exec_var_signal; exact E.
+    - destruct f as [|f]; [rewrite exec_0 in E; discriminate E|]. rewrite exec_S in E.
+      eapply exec_vars_signal; exact E. }
+  subst sg. eapply for_signal; exact H.
+Qed.
+
+(** without that restriction the model lets the initialiser's signal through *)
+Lemma for_init_leak f repl l c inc b rho s :
+  exists s', exec (S (S f)) repl (SFor (Some (SBreak l)) c inc b) rho s = Ok (SigBreak l) s'.
+Proof.
+  rewrite exec_S. destruct (alloc_env (Some rho) s) as [rho' s0]. rewrite exec_S. simpl. eauto.
+Qed.
+
+(** what a call hands back from the signal its body ended with *)
+Definition ret_value (sig : signal) : value :=
+  match sig with SigReturn _ v => v | _ => VNil end.
+
+(** A call of a user function: the result is the returned value if the body's
+    statement list ended with a return, and nil otherwise (the body ran to its
+    end, or ended by a break/continue outside any loop); the final state is the
+    body's. *)
+Theorem call_returns_value f ce pline args rho s l s1 v s' :
+  eval f ce rho s = Ok (VFun l) s1 ->
+  eval (S f) (ECall ce pline args) rho s = Ok v s' ->
+  exists clo vs s2 act s3 s4 s5 sig,
+    get_fun l s1 = Some clo /\
+    length (c_params clo) = length args /\
+    eval_list f args rho s1 = Ok vs s2 /\
+    alloc_env (Some (c_env clo)) s2 = (act, s3) /\
+    env_define act (c_name clo) (VFun l) s3 = Some s4 /\
+    bind_params act (c_params clo) vs s4 = Some s5 /\
+    exec_list f false (c_body clo) act s5 = Ok sig s' /\
+    v = ret_value sig.
+Proof.
+  intros E1 H. rewrite eval_S in H. rewrite E1 in H. cbn [bind] in H.
+  destruct (get_fun l s1) as [clo|] eqn:Eg; [|discriminate H].
+  destruct (Nat.eqb (length (c_params clo)) (length args)) eqn:Ea; cbn [negb] in H; [|discriminate H].
+  apply Nat.eqb_eq in Ea.
+  bdo H as vs s2 El.
+  destruct (alloc_env (Some (c_env clo)) s2) as [act s3] eqn:Eal.
+  destruct (env_define act (c_name clo) (VFun l) s3) as [s4|] eqn:Ed; [|discriminate H].
+  destruct (bind_params act (c_params clo) vs s4) as [s5|] eqn:Eb; [|discriminate H].
+  bdo H as sig s6 Ex. inversion H; subst.
+  exists clo, vs, s2, act, s3, s4, s5, sig. repeat (split; [assumption || reflexivity|]). reflexivity.
+Qed.
+
+Theorem call_user_fwd f ce pline args rho s l s1 clo vs s2 act s3 s4 s5 sig s6 :
+  eval f ce rho s = Ok (VFun l) s1 ->
+  get_fun l s1 = Some clo ->
+  length (c_params clo) = length args ->
+  eval_list f args rho s1 = Ok vs s2 ->
+  alloc_env (Some (c_env clo)) s2 = (act, s3) ->
+  env_define act (c_name clo) (VFun l) s3 = Some s4 ->
+  bind_params act (c_params clo) vs s4 = Some s5 ->
+  exec_list f false (c_body clo) act s5 = Ok sig s6 ->
+  eval (S f) (ECall ce pline args) rho s = Ok (ret_value sig) s6.
+Proof.
+  intros E1 Eg Ea El Eal Ed Eb Ex. rewrite eval_S, E1. cbn [bind]. rewrite Eg.
+  apply Nat.eqb_eq in Ea. rewrite Ea. simpl negb. cbv iota. rewrite El. cbn [bind].
+  rewrite Eal, Ed, Eb, Ex. reflexivity.
+Qed.
+
+(* ------------------------------------------------------------------ *)
+(** * A6. Everything after an executed return / break / continue is skipped *)
+
+Theorem exec_list_skips_after_signal repl : forall f ss1 rho s sig s',
+  exec_list f repl ss1 rho s = Ok sig s' -> sig <> SigNone ->
+  forall ss2, exec_list f repl (ss1 ++ ss2) rho s = Ok sig s'.
+Proof.
+  induction f as [|f IH]; intros ss1 rho s sig s' H N ss2; [rewrite exec_list_0 in H; discriminate H|].
+  rewrite exec_list_S in H. destruct ss1 as [|st ss1].
+  - inversion H; subst. exfalso; apply N; reflexivity.
+  - simpl app. rewrite exec_list_S. bdo H as sg s1 E. rewrite E. cbn [bind].
+    destruct sg; try exact H. apply IH; assumption.
+Qed.
+
+(** a statement list that ran to its end hands its state to what follows (given enough fuel) *)
+Lemma exec_list_app_le repl ss2 rho : forall ss1 f g s s1,
+  exec_list f repl ss1 rho s = Ok SigNone s1 ->
+  le_res (exec_list g repl ss2 rho s1) (exec_list (f + g) repl (ss1 ++ ss2) rho s).
+Proof.
+  induction ss1 as [|st ss1 IH]; intros f g s s1 H.
+  - destruct f as [|f]; [rewrite exec_list_0 in H; discriminate H|].
+    rewrite exec_list_S in H. inversion H; subst. simpl app.
+    destruct (mono_all g (S f + g) ltac:(lia)) as (_ & _ & _ & _ & _ & _ & Hxl & _). apply Hxl.
+  - destruct f as [|f]; [rewrite exec_list_0 in H; discriminate H|].
+    rewrite exec_list_S in H. bdo H as sg s0 E.
+    simpl app. replace (S f + g)%nat with (S (f + g)) by lia. rewrite exec_list_S.
+    rewrite (exec_mono f (f + g) repl st rho s _ ltac:(lia) E ltac:(discriminate)). cbn [bind].
+    destruct sg.
+    + apply IH; exact H.
+    + inversion H.
+    + inversion H.
+    + inversion H.
+Qed.
+
+Theorem exec_list_app_ok repl f g ss1 ss2 rho s s1 r :
+  exec_list f repl ss1 rho s = Ok SigNone s1 ->
+  exec_list g repl ss2 rho s1 = r -> r <> Fuel ->
+  exec_list (f + g) repl (ss1 ++ ss2) rho s = r.
+Proof. intros H1 H2 N. eapply le_use; [eapply exec_list_app_le; exact H1|exact H2|exact N]. Qed.
+
+(** conversely, a run of [ss1 ++ ss2] splits into a run of [ss1] and, if that ended
+    without a signal, a run of [ss2] from the state it left (same fuel bound) *)
+Theorem exec_list_app_inv repl ss2 : forall f ss1 rho s sig s',
+  exec_list f repl (ss1 ++ ss2) rho s = Ok sig s' ->
+  (exec_list f repl ss1 rho s = Ok sig s' /\ sig <> SigNone) \/
+  (exists s1, exec_list f repl ss1 rho s = Ok SigNone s1 /\ exec_list f repl ss2 rho s1 = Ok sig s').
+Proof.
+  induction f as [|f IH]; intros ss1 rho s sig s' H; [rewrite exec_list_0 in H; discriminate H|].
+  destruct ss1 as [|st ss1].
+  - right. exists s. split; [rewrite exec_list_S; reflexivity|exact H].
+  - simpl app in H. rewrite exec_list_S in H. bdo H as sg s0 E.
+    rewrite exec_list_S, E. cbn [bind].
+    destruct sg as [|bl|cl|rl rv]; try (left; split; [exact H|inversion H; discriminate]).
+    destruct (IH _ _ _ _ _ H) as [(H1 & N)|(s1 & H1 & H2)].
+    + left. split; assumption.
+    + right. exists s1. split; [exact H1|].
+      eapply exec_list_mono; [|exact H2|discriminate]. lia.
+Qed.
+
+(** ** return propagates through the statement contexts *)
+
+(** block: [ss1] runs to its end, the next statement signals: the block signals the same
+    (stated for any signal; [SigReturn l v] is the instance asked for) *)
+Theorem return_propagates_block f g repl ss1 st ss2 rho s rho' s0 s1 sig s2 :
+  alloc_env (Some rho) s = (rho', s0) ->
+  exec_list f repl ss1 rho' s0 = Ok SigNone s1 ->
+  exec g repl st rho' s1 = Ok sig s2 -> sig <> SigNone ->
+  exec (S (f + S g)) repl (SBlock (ss1 ++ st :: ss2)) rho s = Ok sig s2.
+Proof.
+  intros Ea E1 E2 N. rewrite exec_S, Ea.
+  eapply exec_list_app_ok; [exact E1| |discriminate].
+  rewrite exec_list_S, E2. cbn [bind]. destruct sig; try reflexivity. exfalso; apply N; reflexivity.
+Qed.
+
+Theorem return_propagates_if_then f repl c t e rho s cv s1 r :
+  eval f c rho s = Ok cv s1 -> truthy cv = true ->
+  exec f repl t rho s1 = r ->
+  exec (S f) repl (SIf c t e) rho s = r.
+Proof. intros E1 T E2. rewrite exec_S, E1. cbn [bind]. rewrite T. exact E2. Qed.
+
+Theorem return_propagates_if_else f repl c t e rho s cv s1 r :
+  eval f c rho s = Ok cv s1 -> truthy cv = false ->
+  exec f repl e rho s1 = r ->
+  exec (S f) repl (SIf c t (Some e)) rho s = r.
+Proof. intros E1 T E2. rewrite exec_S, E1. cbn [bind]. rewrite T. exact E2. Qed.
+
+(** loops: in the iteration where the body returns, the loop returns the same, in the body's state *)
+Theorem return_propagates_while f repl c b rho s cv s1 l v s2 :
+  eval f c rho s = Ok cv s1 -> truthy cv = true ->
+  exec f repl b rho s1 = Ok (SigReturn l v) s2 ->
+  exec_while (S f) repl c b rho s = Ok (SigReturn l v) s2.
+Proof. intros E1 T E2. rewrite exec_while_S, E1. cbn [bind]. rewrite T, E2. reflexivity. Qed.
+
+Theorem return_propagates_for f repl c inc b rho s cv s1 l v s2 :
+  eval f c rho s = Ok cv s1 -> truthy cv = true ->
+  exec f repl b rho s1 = Ok (SigReturn l v) s2 ->
+  exec_for (S f) repl c inc b rho s = Ok (SigReturn l v) s2.
+Proof. intros E1 T E2. rewrite exec_for_S, E1. cbn [bind]. rewrite T, E2. reflexivity. Qed.
+
+(** and an iteration that ends normally or by continue goes round again *)
+Theorem while_iterates f repl c b rho s cv s1 sg s2 :
+  eval f c rho s = Ok cv s1 -> truthy cv = true ->
+  exec f repl b rho s1 = Ok sg s2 -> (sg = SigNone \/ exists l, sg = SigContinue l) ->
+  exec_while (S f) repl c b rho s = exec_while f repl c b rho s2.
+Proof.
+  intros E1 T E2 [->|(l & ->)]; rewrite exec_while_S, E1; cbn [bind]; rewrite T, E2; reflexivity.
+Qed.
+
+Theorem while_break_exits f repl c b rho s cv s1 l s2 :
+  eval f c rho s = Ok cv s1 -> truthy cv = true ->
+  exec f repl b rho s1 = Ok (SigBreak l) s2 ->
+  exec_while (S f) repl c b rho s = Ok SigNone s2.
+Proof. intros E1 T E2. rewrite exec_while_S, E1. cbn [bind]. rewrite T, E2. reflexivity. Qed.
+
+(* ------------------------------------------------------------------ *)
+(** * A4. The line a diagnostic reports, site by site
+
+    [Err e ln s'] has one slot: the kind and line are those of the first error,
+    and evaluation stopped there.  Each lemma below says, for one node form whose
+    sub-expressions evaluated fine, which diagnostics the node itself can raise,
+    that they carry the node's own line field, and that the state is the one
+    the last sub-expression left. *)
+
+Lemma error_line_id f x line rho s e ln s' :
+  eval (S f) (EId x line) rho s = Err e ln s' ->
+  e = RUndefinedVar /\ ln = line /\ s' = s /\ env_get rho x s = Some None.
+Proof.
+  rewrite eval_S. destruct (env_get rho x s) as [[v|]|]; intros H; inversion H; subst.
+  repeat split; reflexivity.
+Qed.
+
+Lemma error_line_unary f op e1 line rho s v s1 e ln s' :
+  eval f e1 rho s = Ok v s1 ->
+  eval (S f) (EUnary op e1 line) rho s = Err e ln s' ->
+  ln = line /\ s' = s1 /\ unop op v = OErr e.
+Proof.
+  intros E1 H. rewrite eval_S, E1 in H. cbn [bind] in H. unfold lift_ores in H.
+  destruct (unop op v); inversion H; subst. repeat split; reflexivity.
+Qed.
+
+Lemma error_line_binary f op l r line rho s a s1 b s2 e ln s' :
+  eval f l rho s = Ok a s1 -> eval f r rho s1 = Ok b s2 ->
+  eval (S f) (EBinary op l r line) rho s = Err e ln s' ->
+  ln = line /\ s' = s2 /\ binop libm s2 op a b = OErr e.
+Proof.
+  intros E1 E2 H. rewrite eval_S, E1 in H. cbn [bind] in H. rewrite E2 in H. cbn [bind] in H.
+  unfold lift_ores in H. destruct (binop libm s2 op a b); inversion H; subst. repeat split; reflexivity.
+Qed.
+
+(** assignment to an undeclared name is reported at the line of the NAME token *)
+Lemma error_line_assign f x nline ve line rho s v s1 e ln s' :
+  eval f ve rho s = Ok v s1 ->
+  eval (S f) (EAssign x nline ve line) rho s = Err e ln s' ->
+  e = RUndefinedAssign /\ ln = nline /\ s' = s1 /\ env_assign rho x v s1 = Some None.
+Proof.
+  intros E1 H. rewrite eval_S, E1 in H. cbn [bind] in H.
+  destruct (env_assign rho x v s1) as [[s2|]|]; inversion H; subst. repeat split; reflexivity.
+Qed.
+
+Lemma error_line_index f ae ie line rho s a s1 i s2 e ln s' :
+  eval f ae rho s = Ok a s1 -> eval f ie rho s1 = Ok i s2 ->
+  eval (S f) (EIndex ae ie line) rho s = Err e ln s' ->
+  ln = line /\ s' = s2 /\ (e = RNotArrayAccess \/ e = RIndexInteger \/ e = RIndexBounds).
+Proof.
+  intros E1 E2 H. rewrite eval_S, E1 in H. cbn [bind] in H. rewrite E2 in H. cbn [bind] in H.
+  destruct a; try (inversion H; subst; auto).
+  destruct (get_arr l s2) as [vs|]; [|discriminate H].
+  destruct (index_of vs i) as [[n|]|]; try (inversion H; subst; auto).
+  destruct (nth_error vs n); discriminate H.
+Qed.
+
+Lemma error_line_arrassign f ae ie ve line rho s a s1 i s2 v s3 e ln s' :
+  eval f ae rho s = Ok a s1 -> eval f ie rho s1 = Ok i s2 -> eval f ve rho s2 = Ok v s3 ->
+  eval (S f) (EArrAssign ae ie ve line) rho s = Err e ln s' ->
+  ln = line /\ s' = s3 /\ (e = RNotArrayAssign \/ e = RIndexInteger \/ e = RIndexBounds).
+Proof.
+  intros E1 E2 E3 H. rewrite eval_S, E1 in H. cbn [bind] in H. rewrite E2 in H. cbn [bind] in H.
+  rewrite E3 in H. cbn [bind] in H.
+  destruct a; try (inversion H; subst; auto).
+  destruct (get_arr l s3) as [vs|]; [|discriminate H].
+  destruct (index_of vs i) as [[n|]|]; inversion H; subst; auto.
+Qed.
+
+Lemma error_line_prop f oe p line rho s o s1 e ln s' :
+  eval f oe rho s = Ok o s1 ->
+  eval (S f) (EProp oe p line) rho s = Err e ln s' ->
+  ln = line /\ s' = s1 /\ (e = RNotObjectAccess \/ e = RNoProperty).
+Proof.
+  intros E1 H. rewrite eval_S, E1 in H. cbn [bind] in H.
+  destruct o; try (inversion H; subst; auto).
+  destruct (get_obj l s1) as [ps|]; [|discriminate H].
+  destruct (assoc p ps); inversion H; subst; auto.
+Qed.
+
+(** property assignment: "not an object" is raised BEFORE the value is evaluated,
+    at the node's line; after that only the value expression can fail *)
+Lemma error_line_propassign f oe p ve line rho s o s1 e ln s' :
+  eval f oe rho s = Ok o s1 ->
+  eval (S f) (EPropAssign oe p ve line) rho s = Err e ln s' ->
+  ((forall l, o <> VObj l) /\ e = RNotObjectAssign /\ ln = line /\ s' = s1) \/
+  (exists l, o = VObj l /\ eval f ve rho s1 = Err e ln s').
+Proof.
+  intros E1 H. rewrite eval_S, E1 in H. cbn [bind] in H.
+  destruct o; try (left; inversion H; subst; split; [intros l0; discriminate|auto]).
+  right. exists l. split; [reflexivity|].
+  bde H as v s2 E2; [exact H|].
+  destruct (get_obj l s2); discriminate H.
+Qed.
+
+(** a call: complete classification of where an error of the call node comes from.
+    The three diagnostics of the call itself carry the line of the closing parenthesis. *)
+Lemma error_line_call f ce pline args rho s c s1 e ln s' :
+  eval f ce rho s = Ok c s1 ->
+  eval (S f) (ECall ce pline args) rho s = Err e ln s' ->
+  (* not callable *)
+  ((forall l, c <> VFun l) /\ (forall n, c <> VNative n) /\ e = RNotCallable /\ ln = pline /\ s' = s1) \/
+  (* wrong number of arguments: no argument has been evaluated *)
+  (e = RArity /\ ln = pline /\ s' = s1 /\
+     ((exists l clo, c = VFun l /\ get_fun l s1 = Some clo /\ length (c_params clo) <> length args) \/
+      (exists n, c = VNative n /\ arity_ok (native_arity n) (length args) = false))) \/
+  (* an argument failed *)
+  (eval_list f args rho s1 = Err e ln s') \/
+  (* the built-in refused *)
+  (exists n vs s2 why, c = VNative n /\ eval_list f args rho s1 = Ok vs s2 /\
+     call_native n vs s2 = NFail why /\
+     e = RCallFailed why /\ ln = pline /\ s' = native_fail_state n vs s2) \/
+  (* the error happened inside the body of the user function *)
+  (exists l clo vs s2 act s3 s4 s5, c = VFun l /\ get_fun l s1 = Some clo /\
+     eval_list f args rho s1 = Ok vs s2 /\
+     alloc_env (Some (c_env clo)) s2 = (act, s3) /\
+     env_define act (c_name clo) (VFun l) s3 = Some s4 /\
+     bind_params act (c_params clo) vs s4 = Some s5 /\
+     exec_list f false (c_body clo) act s5 = Err e ln s').
+Proof.
+  intros E1 H. rewrite eval_S, E1 in H. cbn [bind] in H.
+  destruct c;
+    try (left; inversion H; subst; split; [intros l0; discriminate|split; [intros n0; discriminate|auto]]).
+  - (* VFun *)
+    destruct (get_fun l s1) as [clo|] eqn:Eg; [|discriminate H].
+    destruct (Nat.eqb (length (c_params clo)) (length args)) eqn:Ea; cbn [negb] in H.
+    + bde H as vs s2 El; [right; right; left; exact H|].
+      destruct (alloc_env (Some (c_env clo)) s2) as [act s3] eqn:Eal.
+      destruct (env_define act (c_name clo) (VFun l) s3) as [s4|] eqn:Ed; [|discriminate H].
+      destruct (bind_params act (c_params clo) vs s4) as [s5|] eqn:Eb; [|discriminate H].
+      bde H as sig s6 Ex; [|discriminate H].
+      right; right; right; right.
+      exists l, clo, vs, s2, act, s3, s4, s5. repeat (split; [assumption || reflexivity|]). exact H.
+    + apply Nat.eqb_neq in Ea. inversion H; subst. right; left.
+      repeat (split; [reflexivity|]). left. exists l, clo. auto.
+  - (* VNative *)
+    destruct (arity_ok (native_arity n) (length args)) eqn:Ea; cbn [negb] in H.
+    + bde H as vs s2 El; [right; right; left; exact H|].
+      destruct (call_native n vs s2) as [v s3|why|] eqn:Ec; inversion H; subst.
+      right; right; right; left. exists n, vs, s2, why. auto 10.
+    + inversion H; subst. right; left.
+      repeat (split; [reflexivity|]). right. exists n. auto.
+Qed.
+
+(** redeclaration in the same scope is reported at the line of the declared name *)
+Lemma error_line_var f x init line rho s e ln s' :
+  exec_var (S f) (x, init, line) rho s = Err e ln s' ->
+  (exists ie, init = Some ie /\ eval f ie rho s = Err e ln s') \/
+  (exists v s1, match init with Some ie => eval f ie rho s | None => Ok VNil s end = Ok v s1 /\
+     e = RRedeclare /\ ln = line /\ s' = s1 /\ exists w, env_get_here rho x s1 = Some (Some w)).
+Proof.
+  rewrite exec_var_S. intros H. bde H as v s1 E.
+  - left. destruct init as [ie|]; [|discriminate H]. exists ie. auto.
+  - right. exists v, s1. split; [exact E|].
+    destruct (env_get_here rho x s1) as [[w|]|]; try discriminate H.
+    + inversion H; subst. repeat (split; [reflexivity|]). exists w; reflexivity.
+    + destruct (env_define rho x v s1); discriminate H.
+Qed.
+
+Lemma error_line_svar f repl x init line rho s v s1 e ln s' :
+  match init with Some ie => eval f ie rho s | None => Ok VNil s end = Ok v s1 ->
+  exec (S (S f)) repl (SVar (x, init, line)) rho s = Err e ln s' ->
+  e = RRedeclare /\ ln = line /\ s' = s1.
+Proof.
+  intros E H. rewrite exec_S in H. apply error_line_var in H.
+  destruct H as [(ie & -> & H)|(v' & s1' & E' & -> & -> & -> & _)].
+  - rewrite H in E; discriminate E.
+  - rewrite E' in E. inversion E; subst. repeat split; reflexivity.
+Qed.
+
+(** the three stray signals: a break / continue / return that reaches the top level
+    is a runtime error at the line the signal carries, and [exec] took that line
+    from the statement: [SBreak line], [SContinue line], [SReturn kw _] *)
+Lemma exec_break f repl line rho s : exec (S f) repl (SBreak line) rho s = Ok (SigBreak line) s.
+Proof. rewrite exec_S; reflexivity. Qed.
+Lemma exec_continue f repl line rho s : exec (S f) repl (SContinue line) rho s = Ok (SigContinue line) s.
+Proof. rewrite exec_S; reflexivity. Qed.
+Lemma exec_return_none f repl kw rho s : exec (S f) repl (SReturn kw None) rho s = Ok (SigReturn kw VNil) s.
+Proof. rewrite exec_S; reflexivity. Qed.
+Lemma exec_return_some f repl kw e rho s v s1 :
+  eval f e rho s = Ok v s1 -> exec (S f) repl (SReturn kw (Some e)) rho s = Ok (SigReturn kw v) s1.
+Proof. intros E. rewrite exec_S, E. reflexivity. Qed.
+
+Lemma run_stmts_cons f repl st r s :
+  run_stmts f repl (st :: r) s =
+    let* (sig, s1) := exec f repl st top_env s in
+    match sig with
+    | SigNone => run_stmts f repl r s1
+    | SigBreak l => Err RStrayBreak l s1
+    | SigContinue l => Err RStrayContinue l s1
+    | SigReturn l _ => Err RStrayReturn l s1
+    end.
+Proof. reflexivity. Qed.
+
+Lemma error_line_stray f repl st r s sig s1 :
+  exec f repl st top_env s = Ok sig s1 -> sig <> SigNone ->
+  run_stmts f repl (st :: r) s =
+    match sig with
+    | SigNone => Ok tt s1
+    | SigBreak l => Err RStrayBreak l s1
+    | SigContinue l => Err RStrayContinue l s1
+    | SigReturn l _ => Err RStrayReturn l s1
+    end.
+Proof. intros E N. rewrite run_stmts_cons, E. cbn [bind]. destruct sig; try reflexivity. exfalso; apply N; reflexivity. Qed.
+
+Lemma error_line_stray_break f repl line r s :
+  run_stmts (S f) repl (SBreak line :: r) s = Err RStrayBreak line s.
+Proof. rewrite run_stmts_cons, exec_break. reflexivity. Qed.
+Lemma error_line_stray_continue f repl line r s :
+  run_stmts (S f) repl (SContinue line :: r) s = Err RStrayContinue line s.
+Proof. rewrite run_stmts_cons, exec_continue. reflexivity. Qed.
+Lemma error_line_stray_return f repl kw ve r s :
+  run_stmts (S f) repl (SReturn kw ve :: r) s =
+    match ve with
+    | None => Err RStrayReturn kw s
+    | Some e => let* (_v, s1) := eval f e top_env s in Err RStrayReturn kw s1
+    end.
+Proof.
+  rewrite run_stmts_cons, exec_S. destruct ve as [e|]; [|reflexivity].
+  destruct (eval f e top_env s); reflexivity.
+Qed.
+
+(** the first-error reading of [Err]: a failed program's diagnostic is the one of the
+    first statement that did not end normally, raised in the state the statements
+    before it produced; its final output extends the initial one *)
+Theorem error_shape f repl : forall p s e l s',
+  run_stmts f repl p s = Err e l s' ->
+  exists p1 st p2 s1,
+    p = p1 ++ st :: p2 /\ run_stmts f repl p1 s = Ok tt s1 /\
+    (exec f repl st top_env s1 = Err e l s' \/
+     (exists sig, exec f repl st top_env s1 = Ok sig s' /\
+        match sig with
+        | SigNone => False
+        | SigBreak l' => e = RStrayBreak /\ l = l'
+        | SigContinue l' => e = RStrayContinue /\ l = l'
+        | SigReturn l' _ => e = RStrayReturn /\ l = l'
+        end)) /\
+    grows s s'.
+Proof.
+  intros p s e l s' H.
+  assert (G : grows s s') by (eapply out_grows_run_err; exact H).
+  revert s H G. induction p as [|st p IH]; intros s H G; simpl in H; [discriminate H|].
+  bde H as sig s1 E.
+  - exists [], st, p, s. split; [reflexivity|]. split; [reflexivity|]. split; [left; exact H|exact G].
+  - destruct sig as [|bl|cl|rl rv].
+    + assert (G1 : grows s1 s') by (eapply out_grows_run_err; exact H).
+      destruct (IH s1 H G1) as (p1 & st' & p2 & s2 & -> & R1 & D & _).
+      exists (st :: p1), st', p2, s2. split; [reflexivity|]. split; [|split; [exact D|exact G]].
+      simpl. rewrite E. cbn [bind]. exact R1.
+    + inversion H; subst. exists [], st, p, s. split; [reflexivity|]. split; [reflexivity|].
+      split; [|exact G]. right. exists (SigBreak l). auto.
+    + inversion H; subst. exists [], st, p, s. split; [reflexivity|]. split; [reflexivity|].
+      split; [|exact G]. right. exists (SigContinue l). auto.
+    + inversion H; subst. exists [], st, p, s. split; [reflexivity|]. split; [reflexivity|].
+      split; [|exact G]. right. exists (SigReturn l rv). auto.
+Qed.
+
 End Meta.
+
+Print Assumptions mono_all.
+Print Assumptions out_grows.
+Print Assumptions run_suffix_irrelevant.
+Print Assumptions exec_list_app_ok.
+Print Assumptions exec_for_stmt_signal.
+Print Assumptions error_line_call.
+Print Assumptions error_shape.
